@@ -28,6 +28,9 @@ type C15Pred struct {
 	// Values (floats only): V1 is the value, RTol/ATol index c15Tols; ATol 0: no absolute tolerance is passed
 	RTol int `json:"rtol,omitempty"`
 	ATol int `json:"atol,omitempty"`
+	// Pred2/V3: a second predicate applied afterwards (soft: it replaces the first one's mask; hard: it adds to it)
+	Pred2 string `json:"pred2,omitempty"`
+	V3    int64  `json:"v3,omitempty"`
 }
 
 // tolerances for MaskedValues: exactly representable, so that |a-v| <= atol + rtol*|v| is decided exactly
@@ -39,7 +42,7 @@ func (c *C15Pred) NTKey() string {
 	if !c.Soft && c.Prior == "none" {
 		return ""
 	}
-	return fmt.Sprintf("%s|%s|%v|%v|%s|%v", c.Pred, c.DT, c.Shape, c.Soft, c.Prior, c.Codes)
+	return fmt.Sprintf("%s|%s|%v|%v|%s|%v|%s", c.Pred, c.DT, c.Shape, c.Soft, c.Prior, c.Codes, c.Pred2)
 }
 
 func predModel(pred string, v, a, b interface{}) bool {
@@ -121,10 +124,35 @@ func (c *C15Pred) Run() string {
 	if lerr != nil {
 		return desc + " failed: " + lerr.Error()
 	}
+	var v3 interface{}
+	if c.Pred2 != "" {
+		v3 = decode(d, c.V3)
+		desc += fmt.Sprintf(" then Masked%s(%s)", c.Pred2, fmtVal(v3))
+		var err2 error
+		if p := try(func() {
+			out := reflect.ValueOf(t).MethodByName("Masked" + c.Pred2).Call([]reflect.Value{reflect.ValueOf(v3)})
+			if !out[0].IsNil() {
+				err2 = out[0].Interface().(error)
+			}
+		}); p != "" {
+			return desc + " panicked: " + p
+		}
+		if err2 != nil {
+			return desc + " failed: " + err2.Error()
+		}
+	}
 	for k, cc := range coordsOf(c.Shape) {
 		want := predModel(c.Pred, arr.E[k], v1, v2)
 		if !c.Soft && prior != nil {
 			want = want || prior[k]
+		}
+		if c.Pred2 != "" {
+			second := predModel(c.Pred2, arr.E[k], v3, nil)
+			if c.Soft {
+				want = second
+			} else {
+				want = want || second
+			}
 		}
 		var got bool
 		var err error
@@ -893,6 +921,14 @@ func TestC15(t *testing.T) {
 						c.PMask = make([]bool, n)
 						for i := range c.PMask {
 							c.PMask[i] = rapid.Bool().Draw(rt, "pm")
+						}
+					}
+					if rapid.IntRange(0, 2).Draw(rt, "second") == 0 {
+						// a second predicate on the mask the first one left: a soft mask is replaced, a hard one grows
+						c.Pred2 = rapid.SampledFrom([]string{"Equal", "NotEqual", "Greater", "GreaterEqual", "Less", "LessEqual"}).Draw(rt, "pred2")
+						c.V3 = genCodes(rt, 1, -2, 4, 8, "v3")[0]
+						if d.IsFloat() && isNaNVal(decode(d, c.V3)) {
+							c.V3 = 1
 						}
 					}
 					return c
